@@ -28,6 +28,16 @@ listed = {x["property_id"] for x in na}
 for pid in props:
     if pid not in PROPERTIES and pid not in listed:
         na.append({"property_id": pid, "reason": "check not built yet in this revision of /verif (see DESIGN.md §8 build order); nothing is claimed"})
+serves = {}
+for pid in props:
+    if pid in PROPERTIES:
+        for st in PROPERTIES[pid]["steps"]:
+            e = st.get("engine") or st.get("name")
+            for base in ("seqmc", "netmc", "txmc", "loommc", "quichemc", "dcmc"):
+                if e.startswith(base):
+                    serves.setdefault(base, set()).add(pid)
+for e in static["engines"]:
+    e["serves_properties"] = sorted(serves.get(e["name"], set())) if e["name"] != "mccore" else sorted(PROPERTIES)
 m = {
     "version": 1,
     "setup_cmd": "./check --setup",
